@@ -38,8 +38,10 @@ PROP = {'rule': 'rapid-generated cases: node capacity (1-256 cpu, 1 GiB-4 TiB), 
                  'sum of high-priority requests): by design it does not look at system usage or dangling usage',
                  'qos=LSE pods are charged their cpu REQUEST under the usage policy (documented: LSE does not reclaim cpu); the '
                  'cpu policy value "request" is unsupported and documented to fall back to "usage"',
-                 'only metrics/host applications whose reported priority is koord-prod or koord-mid are required to be charged '
-                 '(the code also charges those with an empty priority; the oracle does not demand it)',
+                 'dangling pod metrics are charged when their reported priority is koord-prod, koord-mid or EMPTY (documented definition in '
+                 'plugin.go: high priority = not Batch or Free; counted according to the metric priority), on the node and per zone, with '
+                 'a separate signature for the empty-priority stage; host applications are required to be charged only for koord-prod / '
+                 'koord-mid, and metrics of terminated pods that are still in the pod list are not required to be charged',
                  'zone bounds use the code\'s documented approximation: system usage, reservation and unbound pods are split evenly '
                  'over the zones, NUMA-bound pods evenly over their zones',
                  'tolerance 2 units (milli-cpu / byte) for the two float multiplications (safety margin, percentage cap)',
